@@ -383,6 +383,115 @@ def compare_lean(rep, lines, metas):
 METHODS = ["auto", "SLSQP", "trust-constr", "L-BFGS-B"]
 
 
+# ------------------------------------------------------------------ second family: bare vectorised objectives
+# objective = exactly (x ** k).sum() (k even: convex) or sum(exp(x)) — the node kinds with their own vectorised
+# gradient / Hessian closures — over a vector x plus extra scalar variables that occur only in constraints /
+# bounds and sort BEFORE or AFTER x in the problem's variable order.  No manufactured optimum: the reference is
+# raw SciPy with hand-written callables in the same (natural) variable order.
+
+
+def check_vector_objective(rng, rep, methods):
+    from optyx import Problem, Variable, VectorVariable
+    from optyx.core.vectors import VectorUnarySum
+
+    n = rng.randint(2, 4)
+    kind = rng.choice(["pow2", "pow4", "exp"])
+    pre = rng.choice([[], ["a"], ["a", "b"], ["a"]])      # sort before "x"
+    post = rng.choice([[], ["z"], []])                      # sort after "x"
+    x = VectorVariable("x", n, lb=-4.0, ub=4.0)
+    extra = {nm: Variable(nm, lb=1.0, ub=float(rng.choice([3, 5]))) for nm in pre + post}
+    names = sorted(list(extra)[:len(pre)]) + [f"x[{i}]" for i in range(n)] + sorted(list(extra)[len(pre):])
+    xi = [names.index(f"x[{i}]") for i in range(n)]
+    obj = (x ** 2).sum() if kind == "pow2" else (x ** 4).sum() if kind == "pow4" else VectorUnarySum(x, "exp")
+    is_max = False
+    P = Problem().minimize(obj)
+    cons_raw = []
+    # couple the extra variables to x:  Σx − Σextra >= s   (keeps x away from the unconstrained optimum)
+    if extra:
+        sh = float(rng.choice([0.0, 0.5, 1.0]))
+        lhs = x.sum()
+        for v in extra.values():
+            lhs = lhs - v
+        P.subject_to(lhs >= sh)
+        ei = [names.index(nm) for nm in extra]
+        g = np.zeros(len(names)); g[xi] = 1.0; g[ei] = -1.0
+        cons_raw.append({"type": "ineq", "fun": lambda v, g=g, sh=sh: float(g @ v - sh), "jac": lambda v, g=g: g})
+    if rng.random() < 0.5:
+        w = np.array([float(rng.randint(1, 3)) for _ in range(n)])
+        r = float(rng.choice([1.0, 2.0]))
+        P.subject_to(w @ x >= r)
+        g2 = np.zeros(len(names)); g2[xi] = w
+        cons_raw.append({"type": "ineq", "fun": lambda v, g=g2, r=r: float(g @ v - r), "jac": lambda v, g=g2: g})
+    bounds = [(1.0, extra[nm].ub) if nm in extra else (-4.0, 4.0) for nm in names]
+
+    def f(v):
+        xv = v[xi]
+        return float(np.sum(xv ** 2) if kind == "pow2" else np.sum(xv ** 4) if kind == "pow4" else np.sum(np.exp(xv)))
+
+    def grad(v):
+        out = np.zeros(len(names)); xv = v[xi]
+        out[xi] = 2 * xv if kind == "pow2" else 4 * xv ** 3 if kind == "pow4" else np.exp(xv)
+        return out
+
+    def hess(v):
+        out = np.zeros((len(names), len(names))); xv = v[xi]
+        d = np.full(n, 2.0) if kind == "pow2" else 12 * xv ** 2 if kind == "pow4" else np.exp(xv)
+        out[xi, xi] = d
+        return out
+
+    from scipy.optimize import minimize as sp_minimize
+    x0 = initial_point(bounds)
+    for method in methods:
+        if method == "L-BFGS-B" and cons_raw:
+            continue
+        with MinimizeSpy() as spy:
+            with warnings.catch_warnings():
+                warnings.simplefilter("ignore")
+                try:
+                    s = P.solve(method=method)
+                except Exception as ex:  # noqa: BLE001
+                    rep.oracle_failures.append({"what": f"solve(method={method}) raised {type(ex).__name__}: {ex}"[:300],
+                                                "vector_objective": [kind, n, pre, post], "method": method})
+                    continue
+        rep.evaluations += 1
+        if not spy.calls:
+            continue
+        kw = spy.calls[0]
+        used = kw["method"]
+        rep.histogram["vecobj:" + kind + ":" + used] = rep.histogram.get("vecobj:" + kind + ":" + used, 0) + 1
+        # captured callables vs hand-written ones, in the problem's variable order
+        ok = [v.name for v in P.variables] == names
+        for _ in range(3):
+            pt = np.array([rng.randint(-12, 12) / 8 + 0.0625 for _ in names])
+            ok = ok and abs(kw["fun"](pt) - f(pt)) <= 1e-9 * (1 + abs(f(pt)))
+            if kw.get("jac") is not None:
+                ok = ok and np.allclose(kw["jac"](pt), grad(pt), rtol=1e-9, atol=1e-9)
+            if kw.get("hess") is not None:
+                ok = ok and np.allclose(kw["hess"](pt), hess(pt), rtol=1e-9, atol=1e-9)
+        if not ok:
+            rep.oracle_failures.append({"what": "a callable handed to SciPy differs from the hand-written model "
+                                                "(vectorised objective with extra variables)",
+                                        "vector_objective": [kind, n, pre, post], "method": method, "names": names})
+            continue
+        kwr = dict(fun=f, x0=x0, method=used, jac=grad, bounds=bounds, constraints=cons_raw if cons_raw else ())
+        if used == "trust-constr":
+            kwr["hess"] = hess
+        with warnings.catch_warnings():
+            warnings.simplefilter("ignore")
+            raw = sp_minimize(**kwr)
+        feas = all(c["fun"](raw.x) >= -1e-6 for c in cons_raw)
+        if raw.success and feas:
+            xo = np.array([s.values.get(nm, np.nan) for nm in names]) if s.values else np.full(len(names), np.nan)
+            fo = f(xo) if np.all(np.isfinite(xo)) else np.inf
+            feas_o = np.all(np.isfinite(xo)) and all(c["fun"](xo) >= -1e-5 for c in cons_raw)
+            if not (s.status.name == "OPTIMAL" and feas_o and fo <= f(raw.x) + 2e-3 * (1 + abs(f(raw.x)))):
+                rep.oracle_failures.append({"what": "raw SciPy converged but optyx did not report that optimum "
+                                                    "(vectorised objective with extra variables)",
+                                            "vector_objective": [kind, n, pre, post], "method": method,
+                                            "optyx": [s.status.name, float(fo)], "raw_f": float(f(raw.x))})
+    rep.nontrivial.add(hash(("vecobj", kind, n, tuple(pre), tuple(post))))
+
+
 def run(ctx) -> core.Report:
     rng = ctx["rng"]
     thorough = ctx["tier"] == "thorough" or ctx["escalate"]
@@ -393,6 +502,8 @@ def run(ctx) -> core.Report:
     for i in range(400 if thorough else 70):
         p = gen_problem(rng)
         check_problem(rng, p, rep, lines, metas, METHODS)
+    for i in range(150 if thorough else 30):
+        check_vector_objective(rng, rep, METHODS)
     # dispatch table of Problem.solve: exhaustive over method names × linearity, against the model
     from optyx import Problem, Variable
     x = Variable("x", lb=0, ub=4)
@@ -438,6 +549,16 @@ def search(ctx, rep):
 
 def replay(payload) -> bool:
     f = payload["failure"]
+    if "vector_objective" in f:
+        # the family is small: re-run it (all kinds / orders are drawn within a few dozen samples)
+        rep = core.Report()
+        rng = core.Rng(payload.get("seed", 0))
+        for _ in range(120):
+            check_vector_objective(rng, rep, [f.get("method", "auto")])
+            if rep.oracle_failures:
+                print(rep.oracle_failures[0])
+                return False
+        return True
     p = undump(f["problem"])
     method = f.get("method", "auto")
     if "edited_bounds" in f:
